@@ -13,7 +13,7 @@ READY_C10 = True
 READY_C11 = True
 COQ_PROPS_C09 = ['Properties_C09_hll']
 COQ_PROPS_C10 = ['Properties_C10_hll']
-COQ_PROPS_C11 = ['Properties_C11_hll']
+COQ_PROPS_C11 = ['Properties_C11_hll', 'Regression_hllcodec']
 TRUSTED = ['HLL codec model coq/HllCodecDefs.v written by hand from the layout constants of HllUtil.hpp and the writers/readers in CouponList-internal.hpp, '
            'CouponHashSet-internal.hpp, HllArray-internal.hpp, AuxHashMap-internal.hpp',
            'binary64 patterns of kxq0/kxq1 computed in integer arithmetic from the exact sums (HllCodecDefs.kbits, on top of KllCodecDefs.dbl_bits); '
@@ -472,4 +472,15 @@ RULE_C11 = ('for valid images of every kind: every strict prefix (all lengths fo
             'values, through the bytes reader (exact-size heap buffer) and the stream reader under ASan/UBSan: accept/reject and the accepted content = the Coq decoders; an accepted '
             'strict prefix must yield the very same sketch (reserved aux padding of updatable HLL_4 images)')
 
-# MUTATIONS (scratch worktree with fixes/11_hll_reader_bounds.patch, scratch combiners): filled in below after the runs
+# MUTATIONS confirmed caught (scratch worktree = /repo + fixes/11_hll_reader_bounds.patch, scratch combiners S09hll/S10hll/S11hll, VERIF_SEED=1):
+#  c1  HllArray::serialize(bytes): kxq1 written into the kxq0 field                        -> C09 hll_bytes_differ_from_stream (+ model image)
+#  c3  HllArray::newHll(istream): cur_min not restored                                     -> C09 hll_reserialized_differs / dump
+#  c5  makeFlagsByte: FULL_SIZE flag dropped                                               -> C09 hll_restored_differs (+ model image)
+#  c7  HllArray::newHll(istream): unused aux area of an updatable HLL_4 image not consumed -> C10 hll_stream_position (168 of 200 bytes)
+#  c6  CouponList::newList(bytes): `len < expectedLength` check disabled                   -> C11 verdict differs from the Coq decoder (ASan on the over-read)
+#  c9  CouponList::newList(istream): lg_k check removed                                    -> C11 verdict differs (model refuses lg_k outside 4..21)
+#  c10 CouponHashSet::newSet(bytes): count-consistency check removed                       -> C11 verdict differs
+#  seed C10-3 (probe stride without KEY_MASK_26, visible only at lg_k >= 17)              -> C10 hll_layout_reserialized / hll_set_probe_rule / hll_set_lookup_after_read /
+#                                                                                             hll_set_image_differs_from_documented (case hl_bigset)
+# harmless rewrites tolerated (exit 0): h1 the two kxq memcpy statements of HllArray::serialize swapped; h2 family id checked before serial version in newList(bytes)
+# On the UNREPAIRED tree C09 and C10 are green; C11 reports the reader defects (and is slow: every case crashes under UBSan/ASan): apply the patch first.
